@@ -151,6 +151,7 @@ class Session:
             self.can_decrypt = False
             return
 
+        keys = None
         match tls_version:
             case TlsVersion.TLS13:
                 keys = key_derivator.dev_tls_13_keys(secret_list, key_length, cipher_suite["MAC"]())
@@ -192,6 +193,12 @@ class Session:
                     keys = key_derivator.dev_ssl_30_keys(master_secret, server_random, client_random, key_length,
                                                          mac_length, 2 * key_length + 2 * mac_length,
                                                          cipher_suite["CryptoAlgo"][0], cipher_suite["CryptoAlgo"][1])
+
+        if keys is None:
+            # the key log holds no line this protocol version can use (e.g. only exporter secrets)
+            logging.error("No usable secret for this connection in the key log")
+            self.can_decrypt = False
+            return
 
         # get block size
         block_size = 0
